@@ -249,6 +249,27 @@ where T::Signed: H, T::Float: H, [T; N]: Frame<Sample = T, Signed = [T::Signed; 
         if chr.as_slice() != &fr[..] { st.oracle_fail("channels_ref() is not the channels in order", &frs, "", ""); }
         let mut fm = fr; let cm: Vec<T> = fm.channels_mut().map(|s| *s).collect();
         if cm.as_slice() != &fr[..] { st.oracle_fail("channels_mut() is not the channels in order", &frs, "", ""); }
+        // closures may carry state (`FnMut`): from_fn / map / zip_map are "the per-channel application … in channel
+        // order" only if they call the closure exactly once per channel, channel 0 first
+        {
+            let mut calls: Vec<usize> = vec![];
+            let f: [T; N] = Frame::from_fn(|i| { calls.push(i); fr[i] });
+            if calls != (0..N).collect::<Vec<usize>>() || f != fr {
+                st.oracle_fail("from_fn must call its closure once per channel in channel order", &frs, &format!("{:?}", (0..N).collect::<Vec<usize>>()), &format!("{:?}", calls));
+            } else { st.oracle_ok(1); }
+            let mut seen: Vec<T> = vec![];
+            let m: [T; N] = fr.map(|s| { seen.push(s); s });
+            if seen.as_slice() != &fr[..] || m != fr {
+                st.oracle_fail("map must call its closure once per channel in channel order", &frs, &format!("{:?}", &fr[..]), &format!("{:?}", seen));
+            } else { st.oracle_ok(1); }
+            let other: [T; N] = core::array::from_fn(|i| fr[N - 1 - i]);
+            let mut pairs: Vec<(T, T)> = vec![];
+            let z: [T; N] = fr.zip_map(other, |a, b| { pairs.push((a, b)); b });
+            let want: Vec<(T, T)> = (0..N).map(|i| (fr[i], other[i])).collect();
+            if pairs != want || z != other {
+                st.oracle_fail("zip_map must call its closure once per channel pair in channel order", &frs, &format!("{:?}", want), &format!("{:?}", pairs));
+            } else { st.oracle_ok(1); }
+        }
         // "channel iteration … in channel order", whichever way the iterators are consumed (nth, skip,
         // step_by, count, last, len, size_hint, and from the back where they are double-ended)
         {
@@ -331,6 +352,9 @@ where <T as Sample>::Signed: H, <T as Sample>::Float: H, [T; 1]: Frame<Sample = 
             ("from_fn", <T as Frame>::from_fn(|_| s) == s),
             ("from_samples", <T as Frame>::from_samples(&mut vec![s].into_iter()) == Some(s) && <T as Frame>::from_samples(&mut Vec::<T>::new().into_iter()).is_none()),
             ("map", { let m: T = Frame::map(s, |x| x); m == s }),
+            ("from_fn calls its closure exactly once, with channel 0", { let mut calls = vec![]; let f = <T as Frame>::from_fn(|i| { calls.push(i); s }); f == s && calls == vec![0usize] }),
+            ("map calls its closure exactly once", { let mut k = 0; let m: T = Frame::map(s, |x| { k += 1; x }); m == s && k == 1 }),
+            ("zip_map calls its closure exactly once", { let mut k = 0; let m: T = Frame::zip_map(s, s, |x, _y: T| { k += 1; x }); m == s && k == 1 }),
         ];
         for (nm, ok) in checks { if !ok { st.oracle_fail(&format!("mono frame {}: bare sample does not behave as the 1-channel frame", nm), &format!("{} {}", T::NAME, s.enc()), "", ""); } else { st.oracle_ok(1); } }
         // same through the model: the 1-channel array frame
